@@ -16,7 +16,7 @@ from .. import core, space
 
 ID = "C08"
 LEVEL = "model_checking"
-RULE = ("histories = (prefix of <=2 disturbing solve/restart operations drawn from an 11-letter alphabet: other field, other save list, other stop, other CFL, dtlocal directive, "
+RULE = ("histories = (prefix of <=2 disturbing solve/restart operations drawn from a 12-letter alphabet: other field, other save list, other stop, other CFL, dtlocal directive, other solver objects on the same discretisation, "
         "monitors, first-step snapshot) x (probe operation: solve(f1) x 5 save lists x 3 monitor settings; restart pairs N+M for N in 1..3, M in 1..2) "
         "x every integrator class x 3 systems x {monitors given to solve, monitors given to the constructor}; "
         "non-trivial = history with a non-empty prefix or a probe with snapshots/monitors")
@@ -118,8 +118,19 @@ class Runner:
             self.trajs[fkey] = reftraj(self.cls, self.sysname, fkey)
         return self.trajs[fkey]
 
+    def other_solver(self):
+        """another integrator object working on the same discretisation (and one of another class on a field of its own) between two calls"""
+        for c in (self.cls, space.integ.rk3ssp, space.integ.implicit):
+            s2 = c(self.m, self.disc)
+            f = space.field.fdata(self.model, self.m, [d.copy() for d in self.fs["a"]])
+            with np.errstate(all="ignore"), core.time_limit(HORIZON):
+                s2.solve(f, 0.25, stop={"maxit": 2}, monitors={"residual": {"frequency": 1}})
+
     def op(self, o, shared_mon=None):
         """o = dict(op='solve'|'restart', f='a'|'b', save=<name>, maxit=int, mon=<kind>)"""
+        if o["op"] == "other-solver":
+            self.other_solver()
+            return None
         mons = shared_mon if shared_mon is not None else mon_spec(o.get("mon", "none"), self.var)
         if o["op"] == "solve":
             f = space.field.fdata(self.model, self.m, [d.copy() for d in self.fs[o["f"]]])
@@ -186,6 +197,7 @@ DISTURB = [
     {"op": "solve", "f": "b", "save": "none", "maxit": 2, "cfl": 0.8},       # another CFL number on the same objects
     {"op": "restart", "maxit": 1, "cfl": 0.15},
     {"op": "solve", "f": "a", "save": "early", "maxit": 2, "dtlocal": True},   # a directive given to one call only
+    {"op": "other-solver"},                                                    # other integrator objects use the same discretisation in between
 ]
 PROBE_SAVES = ["none", "early", "early2", "late", "early+late", "all", "start+late"]
 PROBE_MONS = ["none", "f1", "mix"]
@@ -233,19 +245,22 @@ def explore(iname, sysname, ctor_mon, depth, res=None):
         for o in hist:
             if o["op"] == "restart" and R.last is None:
                 return R, None
-            obs.append(R.op(o))
+            ob = R.op(o)
+            if ob is not None:
+                obs.append(ob)
             if res is not None:
                 res.transitions += 1
         if getattr(R, "args_changed", None):
             add("call-modifies-its-arguments", R.args_changed, hist)
         # what earlier calls returned (and were given) belongs to the caller: later calls on the same solver must not change it
+        solve_ops = [o for o in hist if o["op"] != "other-solver"]
         for k, (sols, seen, fin, fin_seen) in enumerate(getattr(R, "kept", [])):
             now = tuple(fbytes(g) for g in sols)
             if now != seen:
                 add("later-call-modifies-earlier-results", "fields returned by call %d of the history were changed by a later call (%s)" % (
                     k + 1, first_diff({"fields": now, "nit": 0, "totnit": 0, "Qn": None, "mon": {}}, {"fields": seen, "nit": 0, "totnit": 0, "Qn": None, "mon": {}})), hist)
                 break
-            if fbytes(fin) != fin_seen and hist[k]["op"] == "solve":
+            if fbytes(fin) != fin_seen and solve_ops[k]["op"] == "solve":
                 add("call-modifies-its-input-field", "the field handed to call %d of the history was changed" % (k + 1), hist)
                 break
         return R, obs
